@@ -185,7 +185,11 @@ where
                 return None;
             }
             State::Parsing => {
-                self.increment_record();
+                // if the last call failed while the record was still incomplete,
+                // the search is resumed instead of proceeding to the next record
+                if self.incomplete_pos.is_none() {
+                    self.increment_record();
+                }
             }
         };
 
@@ -257,7 +261,10 @@ where
             State::Parsing => {
                 // next() was previously called, the current record has
                 // already been returned -> start parsing the next one
-                self.increment_record();
+                // (unless that call failed with the record still incomplete)
+                if self.incomplete_pos.is_none() {
+                    self.increment_record();
+                }
                 self.state = State::Positioned;
             }
             State::Positioned => {
